@@ -32,7 +32,7 @@ ASSUMPTIONS = [
     'could not be decided offline and are unjudged as well',
     'the tolerated differences are exactly those of the project\'s compare_output (vendored copy)',
 ]
-KINDS = {'corpus': (288, 864, 0), 'compiled': (18, 44, 1), 'descr': (60, 60, 2)}
+KINDS = {'corpus': (288, 864, 0), 'compiled': (18, 44, 1), 'descr': (60, 60, 2), 'dwdescr': (40, 40, 1)}
 FLOOR = {'quick': 150, 'thorough': 600}
 CASE_TIMEOUT = 1200
 OPTIONS = ['-e', '-d', '-s', '-n', '-r', '-x.text', '-p.shstrtab', '-V', '--debug-dump=info', '--debug-dump=decodedline',
@@ -170,6 +170,21 @@ def load_gaps():
             return json.load(f)['gaps']
     except FileNotFoundError:
         return []
+
+
+def known_c18(sh, kind, ident, gnu, clone):
+    """An OPEN finding lists the exact entries it explains (findings/C18/<id>.json); anything else is a violation."""
+    for fid in sorted(sh.quirks):
+        try:
+            with open(os.path.join(VERIF_DIR, 'findings', 'C18', fid + '.json')) as f:
+                ents = json.load(f)['entries']
+        except FileNotFoundError:
+            continue
+        for e in ents:
+            if e['kind'] == kind and e['id'] == ident and e['gnu'].lower() in gnu.lower() and e['clone'].lower() in clone.lower():
+                sh.known_finding(fid)
+                return True
+    return False
 
 
 def gap_matches(kind, ident, msg):
@@ -315,7 +330,7 @@ def run_descr(idx, rng, sh):
             elif gap_matches('descr', '%s %s' % (label, name), 'gnu: %s clone: %s' % (g, c)):
                 sh.count('descr_entries_unjudged_oracle_gap')
                 sh.skip('oracle gap (oracle_gaps_C18.json)')
-            else:
+            elif not known_c18(sh, 'descr', '%s %s' % (label, name), g, c):
                 sh.violation('C18:descr %s entry %s differs' % (label, name), gnu=g, clone=c)
 
 
@@ -487,6 +502,321 @@ def descr_tables():
     return T
 
 
+# ---------------------------------------------------------------- DWARF description tables
+import re
+DIE_HDR = re.compile(r'^\s*<[0-9a-f]+><[0-9a-f]+>: abbrev number')
+
+
+def prepare_lines(s):
+    return [line for line in s.lower().splitlines() if line.strip()]
+
+
+def blocks_by(lines, is_start):
+    out = []
+    for ln in lines:
+        if is_start(ln) or not out:
+            out.append([ln])
+        else:
+            out[-1].append(ln)
+    return out
+
+
+def block_label(block):
+    for ln in block:
+        if 'dw_at_name' in ln and ':' in ln:
+            return ln.rsplit(':', 1)[1].strip()
+    return ' '.join(block[0].split())[:60]
+
+
+def judge_blocks(sh, table, option, img, s, is_start, min_blocks, gnu_placeholders=PLACEHOLDERS + ('user defined', 'implementation defined', 'user tag value')):
+    """Run both programs on one table file and judge it block by block (a block = one table entry)."""
+    p = s.write('t_%s.elf' % re.sub(r'[^A-Za-z0-9]+', '_', table), img)
+    r1 = oracles.run(['readelf', option, p], cwd=REPO)
+    r2 = oracles.run([sys.executable, 'scripts/readelf.py', option, p], cwd=REPO)
+    sh.count('pairs_run')
+    if 'Traceback (most recent call last)' in r2[2]:
+        sh.violation('C18:dwdescr %s: clone raises' % table, message=r2[2].strip().splitlines()[-1][:200])
+        return
+    b1 = blocks_by(prepare_lines(r1[1]), is_start)
+    b2 = blocks_by(prepare_lines(r2[1]), is_start)
+    if len(b1) < min_blocks:
+        sh.violation('C18:dwdescr %s: harness: GNU readelf printed %d of %d entries' % (table, len(b1), min_blocks),
+                     stderr=r1[2][-300:], harness=True)
+        return
+    if len(b1) != len(b2):
+        # align the two block sequences and report every region where they part
+        k1 = [''.join(''.join(b).split()) for b in b1]
+        k2 = [''.join(''.join(b).split()) for b in b2]
+        n = 0
+        for tag, i1, i2, j1, j2 in SequenceMatcher(None, k1, k2, autojunk=False).get_opcodes():
+            if tag == 'equal':
+                continue
+            n += 1
+            if n <= 6:
+                sh.violation('C18:dwdescr %s: entries differ near %s' % (table, block_label(b1[i1] if i1 < len(b1) else b2[min(j1, len(b2) - 1)])),
+                             gnu=[ln for b in b1[i1:i2][:3] for ln in b][:6], clone=[ln for b in b2[j1:j2][:3] for ln in b][:6],
+                             counts=(len(b1), len(b2)))
+        return
+    for g, c in zip(b1, b2):
+        sh.count('descr_entries_run')
+        label = block_label(g)
+        gtxt = '\n'.join(g)
+        ok, msg = compare_output(gtxt, '\n'.join(c))
+        if ok:
+            sh.held(sig=('dwdescr', table, label))
+            sh.count('descr_entries_equal')
+            if len(g) > 1:
+                sh.sample({'table': table, 'entry': label, 'gnu': g[-1].strip()}, kind='dwdescr:' + table)
+            continue
+        # the differing line decides whether the oracle has a name at all
+        bad = [(x, y) for x, y in zip(g, c) if not compare_output(x, y)[0]] if len(g) == len(c) else [(gtxt, '\n'.join(c))]
+        if all(any(ph in x for ph in gnu_placeholders) for x, y in bad):
+            sh.count('descr_entries_unjudged_gnu_placeholder')
+            sh.skip('GNU readelf 2.40 has no name for this code')
+            continue
+        if gap_matches('dwdescr', '%s %s' % (table, label), 'gnu: %s clone: %s' % bad[0]):
+            sh.count('descr_entries_unjudged_oracle_gap')
+            sh.skip('oracle gap (oracle_gaps_C18.json)')
+            continue
+        if known_c18(sh, 'dwdescr', '%s %s' % (table, label), bad[0][0], bad[0][1]):
+            continue
+        sh.violation('C18:dwdescr %s entry %s differs' % (table, label), gnu=bad[0][0][:300], clone=bad[0][1][:300])
+
+
+def dw_tables():
+    """[(label, option, builder() -> (image, n_entries), block-start predicate)]"""
+    import elftools.dwarf.enums as DE
+    import elftools.dwarf.dwarf_expr as DX
+    import elftools.dwarf.descriptions as DD
+    import elftools.dwarf.constants as DC
+    from ..gen import dwtab
+    from ..ref.expr import SPEC
+    T = []
+    is_die = lambda ln: bool(DIE_HDR.match(ln))
+
+    def info_file(cu, machine=62, cls=64, extra=None):
+        # a small leading unit puts the table unit at a non-zero offset (unit-relative operands must get it added)
+        lead = dwtab.CU(version=cu.version, asz=cu.asz)
+        lead.add(0x24, [(0x0b, 0x0b, b'\x04', None)], label='lead')
+        u0, ab0, _ = lead.build()
+        cu.unit_offset = len(u0)
+        unit, ab, offs = cu.build(abbrev_base=len(ab0))
+        secs = {'.debug_info': u0 + unit, '.debug_abbrev': ab0 + ab}
+        secs.update(extra or {})
+        return oracles.wrap_debug(secs, cu.le, cls=cls, machine=machine)
+
+    def op_table(machine, cls, asz, names):
+        def b():
+            cu = dwtab.CU(version=4, asz=asz)
+            cu.scope = (0x2e, [(0x03, 0x08, b'fn\0', None), (0x40, 0x18, dwtab.expr_block(bytes([0x9c])), None)])
+            n = 0
+            for name in names:
+                op = DX.DW_OP_name2opcode[name]
+                if op not in SPEC:
+                    continue
+                for k, enc in enumerate(dwtab.op_variants(op, SPEC[op], True, asz)):
+                    if k and op in (0x98, 0x99):
+                        continue        # GNU readelf sign-extends the 2/4-byte operand of DW_OP_call2/call4; only plain values
+                    cu.add(0x34, [(0x02, 0x18, dwtab.expr_block(enc), None)], label='%s.%d' % (name[6:], k))
+                    n += 1
+            return info_file(cu, machine, cls), n + 2
+        return b
+    allops = sorted(DX.DW_OP_name2opcode, key=lambda n: DX.DW_OP_name2opcode[n])
+    regops = [n for n in allops if re.match(r'DW_OP_b?reg\d+$', n)]
+    T.append(('DW_OP/x86-64', '--debug-dump=info', op_table(62, 64, 8, allops), is_die))
+    T.append(('DW_OP/i386-registers', '--debug-dump=info', op_table(3, 32, 4, regops), is_die))
+    T.append(('DW_OP/aarch64-registers', '--debug-dump=info', op_table(183, 64, 8, regops), is_die))
+    T.append(('DW_OP/arm-registers', '--debug-dump=info', op_table(40, 32, 4, regops), is_die))
+
+    def regx_table(machine, cls, asz, nregs):
+        def b():
+            cu = dwtab.CU(version=4, asz=asz)
+            for r in range(nregs):
+                cu.add(0x34, [(0x02, 0x18, dwtab.expr_block(bytes([0x90]) + uleb(r)), None)], label='regx.%d' % r)
+                cu.add(0x34, [(0x02, 0x18, dwtab.expr_block(bytes([0x92]) + uleb(r) + bytes([0x10])), None)], label='bregx.%d' % r)
+            return info_file(cu, machine, cls), 2 * nregs + 2
+        return b
+    T.append(('DW_OP_regx/x86-64', '--debug-dump=info', regx_table(62, 64, 8, len(DD._REG_NAMES_x64)), is_die))
+    T.append(('DW_OP_regx/i386', '--debug-dump=info', regx_table(3, 32, 4, len(DD._REG_NAMES_x86)), is_die))
+    T.append(('DW_OP_regx/aarch64', '--debug-dump=info', regx_table(183, 64, 8, len(DD._REG_NAMES_AArch64)), is_die))
+
+    def tag_table():
+        cu = dwtab.CU(version=4)
+        ents = sorted((v, k) for k, v in DE.ENUM_DW_TAG.items() if isinstance(v, int) and v > 0 and not k.endswith(('lo_user', 'hi_user')))
+        ents = [e for i, e in enumerate(ents) if not i or ents[i - 1][0] != e[0]]      # one DIE per code
+        for v, k in ents:
+            cu.add(v, [], label='tag_%x' % v)
+        return info_file(cu), len(ents) + 2
+    T.append(('DW_TAG', '--debug-dump=info', tag_table, is_die))
+
+    def at_table(natural):
+        def b():
+            cu = dwtab.CU(version=4)
+            cu.add(0x24, [(0x0b, 0x0b, b'\x04', None), (0x3e, 0x0b, b'\x05', None)], label='int')      # reference target
+            target = cu.header_size() + 1 + 4          # root: abbrev code + 'tab\0'
+            n = 1
+            ents = sorted((v, k) for k, v in DE.ENUM_DW_AT.items() if isinstance(v, int) and v > 0)
+            for v, k in ents:
+                classes = dwtab.AT_CLASSES.get(v)
+                if natural and classes:
+                    forms = []
+                    for c in classes:
+                        forms.append({'c': (0x0b, b'\x01'), 'f': (0x19, b''), 's': (0x08, b'str\0'),
+                                      'r': (0x13, struct.pack('<I', target)), 'a': (0x01, struct.pack('<Q', 0x401000)),
+                                      'e': (0x18, dwtab.expr_block(bytes([0x75, 0x70]))),
+                                      'b': (0x0a, bytes([3, 1, 2, 3]))}[c] + (c,))
+                elif not natural and not classes:
+                    forms = [(0x19, b'', 'f')]
+                else:
+                    continue
+                for form, data, c in forms:
+                    cu.add(0x34, [(v, form, data, None)], label=None if v == 0x03 else '%s.%s' % (k[6:], c))
+                    n += 1
+            return info_file(cu), n + 2
+        return b
+    T.append(('DW_AT/standard', '--debug-dump=info', at_table(True), is_die))
+    T.append(('DW_AT/vendor', '--debug-dump=info', at_table(False), is_die))
+
+    def enum_table(at, values, name):
+        def b():
+            cu = dwtab.CU(version=4)
+            vals = sorted(set(values))
+            for v in vals:
+                if v < 256:
+                    cu.add(0x34, [(at, 0x0b, bytes([v]), None)], label='%s.%x' % (name, v))
+                else:
+                    cu.add(0x34, [(at, 0x05, struct.pack('<H', v), None)], label='%s.%x' % (name, v))
+            return info_file(cu), len(vals) + 2
+        return b
+    for at, tab, name in ((0x13, DD._DESCR_DW_LANG, 'DW_LANG'), (0x3e, DD._DESCR_DW_ATE, 'DW_ATE'), (0x32, DD._DESCR_DW_ACCESS, 'DW_ACCESS'),
+                          (0x17, DD._DESCR_DW_VIS, 'DW_VIS'), (0x4c, DD._DESCR_DW_VIRTUALITY, 'DW_VIRTUALITY'),
+                          (0x42, DD._DESCR_DW_ID_CASE, 'DW_ID'), (0x36, DD._DESCR_DW_CC, 'DW_CC'), (0x20, DD._DESCR_DW_INL, 'DW_INL'),
+                          (0x09, DD._DESCR_DW_ORD, 'DW_ORD')):
+        T.append((name, '--debug-dump=info', enum_table(at, list(tab), name), is_die))
+
+    def form_table():
+        from ..gen.leb import sleb
+        cu = dwtab.CU(version=5)
+        cu.root_attrs = [(0x72, 0x17, struct.pack('<I', 8), None), (0x73, 0x17, struct.pack('<I', 8), None)]   # str_offsets_base, addr_base
+        dstr = b'\0first\0second\0'
+        lstr = b'\0lfirst\0lsecond\0'
+        stroffs = struct.pack('<IHH', 4 + 4 * 3, 5, 0) + struct.pack('<III', 1, 7, 1)
+        addr = struct.pack('<IHBB', 4 + 8 * 3, 5, 8, 0) + struct.pack('<QQQ', 0x1000, 0x2000, 0x3000)
+        target = 12 + 1 + 4 + 8
+        LEAD = 12 + 5 + 7 + 1
+        F = DE.ENUM_DW_FORM
+        cases = [('addr', 0x11, struct.pack('<Q', 0x401000)), ('block2', 0x1c, struct.pack('<H', 3) + b'abc'),
+                 ('block4', 0x1c, struct.pack('<I', 3) + b'abc'), ('data2', 0x1c, struct.pack('<H', 0x1234)),
+                 ('data4', 0x1c, struct.pack('<I', 0x12345678)), ('data8', 0x1c, struct.pack('<Q', 0x123456789abcdef0)),
+                 ('string', 0x25, b'inline\0'), ('block', 0x1c, uleb(3) + b'abc'), ('block1', 0x1c, b'\x03abc'),
+                 ('data1', 0x1c, b'\x7f'), ('flag', 0x3f, b'\x01'), ('sdata', 0x1c, sleb(-300)), ('strp', 0x25, struct.pack('<I', 7)),
+                 ('udata', 0x1c, uleb(300)), ('ref_addr', 0x49, struct.pack('<I', target + LEAD)), ('ref1', 0x49, bytes([target])),
+                 ('ref2', 0x49, struct.pack('<H', target)), ('ref4', 0x49, struct.pack('<I', target)),
+                 ('ref8', 0x49, struct.pack('<Q', target)), ('ref_udata', 0x49, uleb(target)),
+                 ('sec_offset', 0x10, struct.pack('<I', 0)), ('exprloc', 0x02, dwtab.expr_block(bytes([0x75, 0x70]))),
+                 ('flag_present', 0x3f, b''), ('strx', 0x03, uleb(1)), ('addrx', 0x11, uleb(1)),
+                 ('ref_sig8', 0x49, struct.pack('<Q', 0x1122334455667788)), ('implicit_const', 0x1c, b''),
+                 ('line_strp', 0x25, struct.pack('<I', 8)), ('data16', 0x1c, bytes(range(16))),
+                 ('strx1', 0x03, b'\x01'), ('strx2', 0x03, struct.pack('<H', 1)), ('strx3', 0x03, b'\x01\0\0'),
+                 ('strx4', 0x03, struct.pack('<I', 1)), ('addrx1', 0x11, b'\x02'), ('addrx2', 0x11, struct.pack('<H', 2)),
+                 ('addrx3', 0x11, b'\x02\0\0'), ('addrx4', 0x11, struct.pack('<I', 2))]
+        n = 0
+        for name, at, data in cases:
+            code = F.get('DW_FORM_' + name)
+            if not isinstance(code, int) or 'DW_FORM_' + name not in DD._ATTR_DESCRIPTION_MAP:
+                continue            # only the forms the clone's description table has an entry for
+            cu.add(0x34, [(at, code, data, -5 if name == 'implicit_const' else None)], label='form_' + name)
+            n += 1
+        # a minimal line table for DW_FORM_sec_offset/DW_AT_stmt_list is not needed: the dump prints the offset only
+        return info_file(cu, extra={'.debug_str': dstr, '.debug_line_str': lstr, '.debug_str_offsets': stroffs, '.debug_addr': addr}), n + 2
+    T.append(('DW_FORM', '--debug-dump=info', form_table, is_die))
+
+    def ut_table():
+        units = b''
+        abbrevs = b''
+        kinds = [(1, b''), (2, struct.pack('<QI', 0x1122334455667788, 0)), (3, b''), (4, struct.pack('<Q', 0xabcdef)),
+                 (5, struct.pack('<Q', 0xabcdef))]       # DW_UT_split_type only occurs in .dwo sections (GNU readelf misreads it here)
+        for ut, extra in kinds:
+            cu = dwtab.CU(version=5, unit_type=ut, header_extra=extra,
+                          root_tag={1: 0x11, 2: 0x41, 3: 0x3c, 4: 0x4a, 5: 0x11, 6: 0x41}[ut])
+            if ut in (2, 6):
+                cu.header_extra = extra[:8] + struct.pack('<I', cu.header_size())
+            cu.add(0x24, [(0x0b, 0x0b, b'\x04', None)], label='ut%d' % ut)
+            u, ab, offs = cu.build(abbrev_base=len(abbrevs))
+            units += u
+            abbrevs += ab
+        return oracles.wrap_debug({'.debug_info': units, '.debug_abbrev': abbrevs}, True), 5
+    T.append(('DW_UT', '--debug-dump=info', ut_table, lambda ln: 'compilation unit @' in ln))
+
+    def cfa_table(machine, eh, cls=64):
+        def b():
+            A = '<Q' if cls == 64 else '<I'
+            from ..gen.leb import uleb as U, sleb as S
+            names = sorted((v, k) for k, v in vars(DC).items() if k.startswith('DW_CFA_') and isinstance(v, int))
+            ins = []
+            e = bytes([0x77, 0x08])
+            enc = {'DW_CFA_advance_loc': bytes([0x40 | 4]), 'DW_CFA_offset': bytes([0x80 | 6]) + U(2), 'DW_CFA_restore': bytes([0xc0 | 6]),
+                   'DW_CFA_nop': b'\0', 'DW_CFA_set_loc': bytes([1]) + struct.pack(A, 0x401020), 'DW_CFA_advance_loc1': bytes([2, 9]),
+                   'DW_CFA_advance_loc2': bytes([3]) + struct.pack('<H', 300), 'DW_CFA_advance_loc4': bytes([4]) + struct.pack('<I', 70000),
+                   'DW_CFA_offset_extended': bytes([5]) + U(17) + U(3), 'DW_CFA_restore_extended': bytes([6]) + U(17),
+                   'DW_CFA_undefined': bytes([7]) + U(3), 'DW_CFA_same_value': bytes([8]) + U(3), 'DW_CFA_register': bytes([9]) + U(3) + U(12),
+                   'DW_CFA_remember_state': bytes([0x0a]), 'DW_CFA_restore_state': bytes([0x0b]), 'DW_CFA_def_cfa': bytes([0x0c]) + U(7) + U(16),
+                   'DW_CFA_def_cfa_register': bytes([0x0d]) + U(6), 'DW_CFA_def_cfa_offset': bytes([0x0e]) + U(24),
+                   'DW_CFA_def_cfa_expression': bytes([0x0f]) + U(len(e)) + e, 'DW_CFA_expression': bytes([0x10]) + U(3) + U(len(e)) + e,
+                   'DW_CFA_offset_extended_sf': bytes([0x11]) + U(13) + S(-3), 'DW_CFA_def_cfa_sf': bytes([0x12]) + U(7) + S(-2),
+                   'DW_CFA_def_cfa_offset_sf': bytes([0x13]) + S(-4), 'DW_CFA_val_offset': bytes([0x14]) + U(3) + U(2),
+                   'DW_CFA_val_offset_sf': bytes([0x15]) + U(3) + S(-2), 'DW_CFA_val_expression': bytes([0x16]) + U(3) + U(len(e)) + e,
+                   'DW_CFA_GNU_window_save': bytes([0x2d]), 'DW_CFA_AARCH64_negate_ra_state': bytes([0x2d]),
+                   'DW_CFA_GNU_args_size': bytes([0x2e]) + U(32), 'DW_CFA_GNU_negative_offset_extended': bytes([0x2f]) + U(3) + U(2),
+                   'DW_CFA_MIPS_advance_loc8': bytes([0x1d]) + struct.pack('<Q', 2 ** 33)}
+            seen = set()
+            order = [k for v, k in names if k in enc and k not in ('DW_CFA_restore_state',)] + ['DW_CFA_restore_state']
+            body = b''
+            n = 0
+            for k in order:
+                if enc[k] in seen or k not in vars(DC):
+                    continue
+                seen.add(enc[k])
+                body += enc[k]
+                n += 1
+            if eh:
+                cie_body = struct.pack('<IB', 0, 1) + b'zR\0' + U(1) + S(-8) + U(16) + U(1) + bytes([0x00]) + bytes([0x0c, 7, 8])
+            else:
+                cie_body = struct.pack('<IB', 0xffffffff, 1) + b'\0' + U(1) + S(-8) + U(16) + bytes([0x0c, 7, 8])
+            cie_body += b'\0' * (-(len(cie_body) + 4) % (cls // 8))
+            cie = struct.pack('<I', len(cie_body)) + cie_body
+            if eh:
+                fde_body = struct.pack('<I', len(cie) + 4) + struct.pack(A, 0x401000) + struct.pack(A, 0x100000) + U(0) + body
+            else:
+                fde_body = struct.pack('<I', 0) + struct.pack(A, 0x401000) + struct.pack(A, 0x100000) + body
+            fde_body += b'\0' * (-(len(fde_body) + 4) % (cls // 8))
+            fde = struct.pack('<I', len(fde_body)) + fde_body
+            sec = cie + fde + (b'\0\0\0\0' if eh else b'')
+            # the clone (ELFFile.has_dwarf_info) only looks for frames in files that also have .debug_info or .eh_frame
+            tiny = dwtab.CU(version=4, asz=cls // 8)
+            tiny.add(0x24, [(0x0b, 0x0b, b'\x04', None)], label='int')
+            unit, ab, _ = tiny.build()
+            return oracles.wrap_debug({'.eh_frame' if eh else '.debug_frame': sec, '.debug_info': unit, '.debug_abbrev': ab},
+                                      True, cls=cls, machine=machine), n
+        return b
+    is_cfa = lambda ln: ln.strip().startswith('dw_cfa_') or 'cie' in ln or 'fde' in ln
+    T.append(('DW_CFA/x86-64', '--debug-dump=frames', cfa_table(62, False), is_cfa))
+    T.append(('DW_CFA/x86-64-eh', '--debug-dump=frames', cfa_table(62, True), is_cfa))
+    T.append(('DW_CFA/aarch64', '--debug-dump=frames', cfa_table(183, False), is_cfa))
+    T.append(('DW_CFA/i386', '--debug-dump=frames', cfa_table(3, False, 32), is_cfa))
+    return T
+
+
+def run_dwdescr(idx, rng, sh):
+    tables = dw_tables()
+    if idx >= len(tables):
+        return
+    label, option, build, is_start = tables[idx]
+    with oracles.Scratch() as s:
+        img, n = build()
+        judge_blocks(sh, label, option, img, s, is_start, max(2, n // 2))
+
+
 def first_phdr_line(out):
     lines = out.splitlines()
     for i, ln in enumerate(lines):
@@ -523,6 +853,8 @@ def run_case(kind, idx, rng, sh):
         judge(sh, 'corpus', path, option, os.path.basename(path), 'corpus')
     elif kind == 'compiled':
         run_compiled(idx, rng, sh)
+    elif kind == 'dwdescr':
+        run_dwdescr(idx, rng, sh)
     else:
         run_descr(idx, rng, sh)
 
